@@ -70,7 +70,7 @@ def run_split(case):
     from bioscrape.lineage import LineageModel, LineageVolumeSplitter, LineageVolumeCellState
     import bioscrape.random as brandom
     C = Counter()
-    viol = []
+    viol = util.ViolList()
     rnd = random.Random(case["seed"])
     brandom.py_seed_random((case["seed"] ^ 0x5DEECE66D) % (2 ** 63) or 1)
     species = ["s0", "s1", "s2", "s3"]
@@ -218,7 +218,7 @@ def run_lineage(case):
     from bioscrape.lineage import py_SimulateCellLineage, py_SimulateSingleCell, LineageVolumeCellState, LineageCSimInterface, SafeLineageCSimInterface
     import bioscrape.random as brandom
     C = Counter()
-    viol = []
+    viol = util.ViolList()
     M, modes = build_lineage_model(case)
     idx = M.get_species2index()
     dt, n = case["dt"], case["n"]
